@@ -79,7 +79,10 @@ def forbidden_tokens() -> List[str]:
     for f in sorted(LEAN_DIR.rglob("*.lean")):
         if ".lake" in f.parts:
             continue
-        code = strip_comments(f.read_text())
+        try:
+            code = strip_comments(f.read_text())
+        except FileNotFoundError:      # a file that vanished between listing and reading is not part of the project
+            continue
         for ln, line in enumerate(code.splitlines(), 1):
             if FORBIDDEN.search(line):
                 hits.append(f"{f.relative_to(LEAN_DIR)}:{ln}: {line.strip()[:120]}")
@@ -103,13 +106,12 @@ def audit(prop: str, names: Sequence[str], extra_modules: Sequence[str] = ()) ->
     body = [f"import Deepali.Props.{m}" for m in [prop, *extra_modules]] + ["open Deepali"]
     for n in names:
         body.append(f"#print axioms {n}")
-    with tempfile.NamedTemporaryFile("w", suffix=".lean", dir=str(LEAN_DIR), delete=False) as fh:
-        fh.write("\n".join(body) + "\n")
-        tmp = fh.name
-    try:
+    # the scratch file lives outside the project (another check's escape-hatch scan must not see it)
+    with tempfile.TemporaryDirectory(prefix="verif_audit_") as td:
+        tmp = os.path.join(td, "Audit.lean")
+        with open(tmp, "w") as fh:
+            fh.write("\n".join(body) + "\n")
         p = _run(["lake", "env", "lean", tmp])
-    finally:
-        os.unlink(tmp)
     text = (p.stdout or "") + (p.stderr or "")
     res: Dict[str, dict] = {}
     for n in names:
